@@ -167,9 +167,16 @@ def work(ctx, unit):
     block, full, pairs = unit
     base, points, raw = digest(ctx, block)
     # replaying the default schedule must reproduce itself
-    again, points2, _ = digest(ctx, block)
-    if again != base or points2 != points:
-        return {"broken": "default schedule does not reproduce itself"}
+    again, points2, raw2 = digest(ctx, block)
+    if again != base:
+        # the same input, the same options, the same iteration orders, twice in one process: a different result is
+        # a violation of the first sentence of the property (the cause is state left behind by the first run)
+        return {"viol": {"clause": "same-input-twice-differs", "site": "second run in the same process",
+                         "plan": {}, "block": B.to_text(block), "config": list(ctx.cfg),
+                         "diff": _first_diff(raw, raw2)},
+                "points": len(points), "multi_points": 0, "runs": 2, "sites": [], "digest": base}
+    if points2 != points:
+        return {"broken": "default schedule does not reproduce itself (same result, different iteration points)"}
     runs = 0
     multi = [(n, size, site) for n, size, site in points if size >= 2]
     viol = None
